@@ -153,3 +153,24 @@ reg("C06", "c06", [("presentations", "plain", 3), ("names", "plain", 1)], "explo
                "ValueError before any KKT factorization or F(x) evaluation.",
     level_note="Trusts the planted constructions, numpy, and the weak-duality bracket derivation (DESIGN 4/C05).",
     design_ref="4/C06")
+
+reg("C10", "c10", [("faults", "plain", 3), ("domain", "plain", 1)], "fault_enumeration",
+    rule="faults: Hypothesis draws an instance (conelp with/without start points, coneqp with/without initvals and the "
+         "no-inequality branch, cpl with a quadratic constraint, cp with a quadratic objective; all cone structures, "
+         "refinement 0/1/default); a fault-free instrumented run (kktsolver='ldl', misc.kkt_ldl wrapped) records every "
+         "factor() and solve() call; then EVERY call index is injected with ArithmeticError in turn (exhaustive per "
+         "instance) and the outcome is judged. evaluations = injected runs. domain: cp/cpl with F returning None or "
+         "(None, None) outside a random convex set (box intersected with a half-space) that contains the start point "
+         "and the minimiser. Non-trivial = instance with an injection at iteration >= 1 (faults), a solve in which F "
+         "refused at least one trial point (domain); distinct = SHA-1 of case JSON.",
+    assumptions=["at start-up and in iteration 0 both the documented rank ValueError and status 'unknown' are accepted; "
+                 "from iteration 1 on only 'unknown' (cpl/cp may also recover through their restore-and-retry and "
+                 "return 'optimal')",
+                 "faults are injected as exceptions at call boundaries of the KKT solver (not as silent wrong results)"],
+    technique="exhaustive fault injection over every KKT factor/solve call of generated instances (Hypothesis generates the instances); generated convex refusal patterns for domain-restricted F",
+    level_text="For each of ~160 (quick) / 3000 (thorough) generated instances every factor and every solve call of the "
+               "solve (typically 20-80 per instance) is made to fail once; the solver must answer with the documented "
+               "rank ValueError (start-up / iteration 0) or status 'unknown' with strictly interior iterates and "
+               "self-consistent fields, never another exception, never 'optimal'. Per-instance sweep is exhaustive.",
+    level_note="Trusts the instrumentation (wrapper around misc.kkt_ldl) and vlib/judge.py for field recomputation.",
+    design_ref="4/C10")
